@@ -37,6 +37,7 @@ def build(desc):
     c = PoolCase()
     c.entry = e
     c.desc = desc
+    c.has_dups = False
     c.kind = e.kind if e.kind != "both" else ("clf" if rng.rand() < 0.7 else "reg")
     nmax = min(e.nmax, desc.get("nmax") or e.nmax)
     c.n = int(desc.get("n") or rng.randint(3, max(4, nmax + 1)))
@@ -61,6 +62,12 @@ def build(desc):
         c.candidates = rng.choice(c.unl, size=k, replace=False)
         if rng.rand() < 0.3:
             c.candidates = np.sort(c.candidates)
+        c.has_dups = False
+        if desc.get("allow_dup_candidates") and k >= 1 and rng.rand() < 0.2:
+            # repeated entries in the index array: the library may reject them (ValueError) - if it accepts them the
+            # result must still be a set of distinct candidates
+            c.candidates = np.concatenate([c.candidates, c.candidates[rng.randint(k, size=int(rng.randint(1, 3)))]])
+            c.has_dups = True
         c.cset = set(c.candidates.tolist())
         c.ncols = c.n
     elif c.cmode == "idx_any":
